@@ -437,6 +437,8 @@ def _len(I, self, args, kw, fr, site):
                 return call_value(I, VFunc(m["v"], v), [], {}, fr, site)
             if I.E.contract_of(o.cls + ".__len__"):
                 return call_value(I, VFunc(o.cls + ".__len__", v), [], {}, fr, site)
+    if isinstance(v, VOpaque) and I.E.contract_of(v.tag + ".__len__"):
+        return call_value(I, VFunc(v.tag + ".__len__", v), [], {}, fr, site)
     if isinstance(v, VExc):
         return VInt(len(v.args))
     if not fr.spec and isinstance(v, (VNone, VInt, VBool)):
@@ -464,6 +466,8 @@ def _range(I, self, args, kw, fr, site):
 def _enumerate(I, self, args, kw, fr, site):
     r = I.st.alloc("enumerate", "enumerate")
     I.st.heap[r.ref].data = args[0]
+    start = args[1] if len(args) > 1 else kw.get("start")
+    I.st.heap[r.ref].fields["start"] = start if start is not None else VInt(0)
     return r
 
 
@@ -934,6 +938,14 @@ def _tobytes(I, self, args, kw, fr, site):
 @intrinsic("bytes.decode", "str.encode")
 def _codec(I, self, args, kw, fr, site):
     st = I.st
+    errors = ropes.conc_value(args[1]) if len(args) > 1 and isinstance(args[1], VSeq) else \
+        (ropes.conc_value(kw["errors"]) if isinstance(kw.get("errors"), VSeq) else "strict")
+    if self.pytype != "str" and errors in ("replace", "ignore", "backslashreplace", "surrogateescape"):
+        # lenient decoding never raises; the text is some function of the bytes
+        f = z3.Function("uf_decode_" + errors, smt.Seq, smt.Seq)
+        r = f(ropes.seq_term(st, self))
+        st.assume(smt.slen(r) >= 0)
+        return VSeq([Seg("A", r, smt.slen(r))], "str")
     c = ropes.conc_value(self)
     if c is not None:
         try:
